@@ -57,6 +57,7 @@ struct side {
     int eof_seen, closed, term_errno, gave_up, had_eagain_send;
     int last_rc, last_errno;
     int last_send_len, carried_on, own_write_failed;
+    int send_fail_errno;     /* errno of the first xcm_send that failed with something else than EAGAIN */
     /* counter ledger */
     int64_t exp_from_app_msgs, exp_from_app_bytes, exp_to_app_msgs, exp_to_app_bytes;
     int64_t prev_cnt[8];
@@ -191,7 +192,12 @@ static void on_received(struct side *rx, const unsigned char *buf, int rc, int c
         }
         int64_t limit = tx->bytes_sent_acc + (tx->inflight >= 0 ? tx->inflight_len : 0);
         if (off + rc > limit) {
-            snprintf(sig, sizeof sig, "C02/bytes-never-accepted/retry=%s/tp=%s", g_retry[0] ? g_retry : "same", g_tp);
+            /* (the errno of the sender's last failed call is part of the signature unless it is EAGAIN: bytes of a call
+               interrupted by a signal or failed otherwise are a different matter than OpenSSL's retained refusal) */
+            char fc[40] = "";
+            if (tx->send_fail_errno)
+                snprintf(fc, sizeof fc, "/failed-call=%s", errname(tx->send_fail_errno));
+            snprintf(sig, sizeof sig, "C02/bytes-never-accepted%s/retry=%s/tp=%s", fc, g_retry[0] ? g_retry : "same", g_tp);
             V("C02", sig, "%s received %lld bytes but only %lld were accepted (+%d offered in a call in progress)",
               rx->name, (long long)(off + rc), (long long)tx->bytes_sent_acc,
               tx->inflight >= 0 ? tx->inflight_len : 0);
@@ -437,11 +443,22 @@ static int do_send(struct side *x, struct op *o)
         }
         x->last_rc = rc;
         x->last_errno = err;
+        if (rc < 0 && err != EAGAIN && !x->send_fail_errno)
+            x->send_fail_errno = err;
         mc_observe("%s send m%d len=%d -> %d %s", x->name, m, o->len - sent_total, rc, rc < 0 ? errname(err) : "");
         on_send_result(x, m, o->len - sent_total, rc, err);
         int refused = rc < 0 && (err == EAGAIN || err == EMSGSIZE || err == EINVAL || err == EINTR);
         (void)have_before;
         check_counters(x, "xcm_send", refused && err != EINTR);
+        if (refused && err != EINTR && have_before && x->cnt_valid &&
+            (x->prev_cnt[0] != before[0] || x->prev_cnt[1] != before[1])) {
+            /* C03: a refused send leaves the counters as if the call had not been made (C17 reports the same
+               step as a ledger mismatch) */
+            char sig[128];
+            snprintf(sig, sizeof sig, "C03/refused-send-counted/errno=%s/tp=%s", errname(err), g_tp);
+            V("C03", sig, "xcm_send returned -1/%s but from_app went %lld/%lld -> %lld/%lld", errname(err),
+              (long long)before[0], (long long)before[1], (long long)x->prev_cnt[0], (long long)x->prev_cnt[1]);
+        }
         if (rc < 0 && err == EINTR) {
             /* C03: counters must be as if the call had not been made */
             if (have_before && (x->prev_cnt[0] != before[0] || x->prev_cnt[1] != before[1])) {
